@@ -39,7 +39,7 @@ func (c *Check) NumCases(tier string) int {
 	if tier == "thorough" {
 		return 24000
 	}
-	return 1600
+	return 3200
 }
 func (c *Check) CaseTimeout() time.Duration { return 120 * time.Second }
 func (c *Check) CrashIsViolation() bool     { return true }
